@@ -106,7 +106,7 @@ def main():
 
     def one(job):
         idx, case, comp, direction, versioned = job
-        sub = "%s-%s%s" % (comp, direction, "-v" if versioned else "")
+        sub = "%s-%s%s" % (comp, direction, "-m" if versioned == "mixed" else "-v" if versioned else "")
         w1, w2 = (1, 2) if direction == "ab" else (2, 1)
         a, e1, da = S.build(c, idx, case, comp, which=w1, sub=sub + "/a", versioned=versioned)
         b, e2, db = S.build(c, idx, case, comp, which=w2, sub=sub + "/b", versioned=versioned)
@@ -152,7 +152,7 @@ def main():
     for i, cs in enumerate(cases):
         for comp in comps:
             for direction in ("ab", "ba"):
-                for versioned in ((False, True) if c.thorough else ((i + (direction == "ba")) % 2 == 0,)):
+                for versioned in ((False, True, "mixed") if c.thorough else ((False, True, "mixed")[(i + (direction == "ba")) % 3],)):
                     todo.append((i, cs, comp, direction, versioned))
     res = [x for xs in vf.pmap(one, todo) for x in xs]
     events, trees = [], []
